@@ -77,7 +77,7 @@ theorem opsOK_of_oinv (es : WEdges) (L : Nat) (M : List Row) (h : OInv es L M) :
       rcases this with ⟨h5, _⟩ | h5 | h5
       · exact Or.inl h5
       · exact Or.inr (Or.inl h5)
-      · exact Or.inr (Or.inr h5)
+      · exact Or.inr (Or.inr ⟨j, h5⟩)
     · have hc : (!(decide (0 > j) || decide (e ≤ j) || cs.isEmpty)) = false := by
         simp; intro _; omega
       rw [hc]
@@ -146,7 +146,7 @@ theorem colsOK_of_oinv (es : WEdges) (L : Nat) (M : List Row) (h : OInv es L M) 
       · simp only [Nat.sub_zero] at hy
         rcases Nat.lt_or_ge j cs.length with hjl | hjl
         · simp only [List.getD, List.getElem?_eq_getElem hjl, Option.getD_some] at hy
-          rcases h4 j cs[j] (List.getElem?_eq_getElem hjl) with ⟨h5, _⟩ | h5 | ⟨d', h5⟩
+          rcases h4 j cs[j] (List.getElem?_eq_getElem hjl) with ⟨h5, _⟩ | h5 | h5
           · rw [h5] at hy; cases hy
           · rw [h5] at hy; cases hy
           · rw [h5] at hy; cases hy; omega
@@ -170,7 +170,7 @@ theorem colsOK_of_oinv (es : WEdges) (L : Nat) (M : List Row) (h : OInv es L M) 
         · simp only [Nat.sub_zero] at hy
           rcases Nat.lt_or_ge j cs.length with hjl | hjl
           · simp only [List.getD, List.getElem?_eq_getElem hjl, Option.getD_some] at hy
-            have := (hok j cs[j] (List.getElem?_eq_getElem hjl)).2.2 c d hy
+            have := ((hok j cs[j] (List.getElem?_eq_getElem hjl)).2.2 c d hy).1
             omega
           · simp only [List.getD, List.getElem?_eq_none hjl, Option.getD_none, mcell] at hy; cases hy
         · split at hy
@@ -285,7 +285,7 @@ theorem step_dag (sc : Sc) (xp xs yp ys : Int) (g g' : G) (q : List Nat) (t : BT
     (hC : customTableC sc xp xs yp ys g.labels g.es q = some t)
     (h : srcStep sc xp xs yp ys g q = ok g') :
     Dag g' ∧ Grows g g' ∧ g'.labels.length ≤ g.labels.length + q.length := by
-  obtain ⟨tb, e, el, ec, er, hO, _⟩ := custom_score_eq_model sc xp xs yp ys g.labels g.es q t (graphOK_of_dag g hg) hm hn hC
+  obtain ⟨tb, e, el, ec, er, hml, hO, _⟩ := custom_score_eq_model sc xp xs yp ys g.labels g.es q t (graphOK_of_dag g hg) hm hn hC
   unfold srcStep at h
   have hgg : (⟨g.labels, g.es⟩ : G) = g := rfl
   rw [hgg] at e
